@@ -4,7 +4,8 @@ import PgGen.C08Guards
 open Pg Pg.C08
 
 def flagsOfJ (j : J) : Flags :=
-  { sealed := (j.getBool? "s").getD false, accW := (j.getBool? "w").getD true }
+  let s := (j.getBool? "s").getD false
+  { sealed := s, accW := (j.getBool? "w").getD true, inner := (j.getBool? "ci").getD s }
 
 partial def treeOfJ : J → Option Tree
   | .null => some (.leaf .none)
@@ -34,7 +35,8 @@ partial def treeToJ : Tree → J
       ("items", .arr (items.map fun (k, t) => .arr [.str k, treeToJ t]))]
   | .list f items => .obj [("k", .str "list"), ("s", .bool f.sealed), ("w", .bool f.accW),
       ("items", .arr (items.map treeToJ))]
-  | .obj f c attrs => .obj [("k", .str "obj"), ("s", .bool f.sealed), ("w", .bool f.accW), ("c", .int c),
+  | .obj f c attrs => .obj [("k", .str "obj"), ("s", .bool f.sealed), ("w", .bool f.accW), ("ci", .bool f.inner),
+      ("c", .int c),
       ("items", .arr (attrs.map fun (k, t) => .arr [.str k, treeToJ t]))]
 
 def keyOfJ : J → Option Key
@@ -81,7 +83,8 @@ def opOfJ (j : J) : Option Op := do
   let k := j.getStr? "key"
   match name with
   | "l_setitem" => do pure (.lSetItem (← i) (← v))
-  | "l_setslice" => do pure (.lSetSlice (← j.getNat? "a") (← j.getNat? "b") (← vs))
+  | "l_setslice" => do pure (.lSetSlice (j.getInt? "a") (j.getInt? "b") (j.getInt? "step") (← vs))
+  | "l_delslice" => pure (.lDelSlice (j.getInt? "a") (j.getInt? "b") (j.getInt? "step"))
   | "l_delitem" => do pure (.lDelItem (← i))
   | "l_iadd" => do pure (.lIAdd (← vs))
   | "l_imul" => do pure (.lIMul (← i))
@@ -131,6 +134,9 @@ def runStep (t : Tree) (j : J) : Option (Tree × J) := do
   | some "seal" => do
     let b ← j.getBool? "b"
     pure (mapAt (sealT genSealShortCircuit b) t recv, .str "ok")
+  | some "sym_seal" => do
+    let b ← j.getBool? "b"
+    pure (mapAt (symSeal b) t recv, .str "ok")
   | some "set_acc" => do
     let b ← j.getBool? "b"
     pure (mapAt (setAccW b) t recv, .str "ok")
